@@ -562,6 +562,74 @@ fn dflt_instance(tx: mpsc::Sender<Value>, seed: u64, flavor: String, exec: Strin
     let _ = tx.send(json!({"ev":"__done"}));
 }
 
+/// wait() (and insert) racing close(), many times over on fresh caches: whatever the stopping processor does with a marker that is
+/// queued at that very moment, the waiter returns (C10; StopWait.tla is the model of this window), close() returns and the
+/// workers terminate (C12)
+fn close_instance(tx: mpsc::Sender<Value>, seed: u64, flavor: String, exec: String) {
+    use std::sync::atomic::AtomicBool;
+    use std::sync::Arc;
+    let mut rng = StdRng::seed_from_u64(seed ^ 0xc105e);
+    verif::clock::set_virtual(100_000 * MS);
+    drain_callbacks();
+    let _ = tx.send(json!({"ev":"FInit","flavor":flavor,"exec":exec,"kind":"close races"}));
+    for round in 0..150u64 {
+        let threads_before = threads_now();
+        let tasks_before = TASKS_ALIVE.load(Ordering::SeqCst);
+        let api = Arc::new(Api(build_bi(&flavor, &exec, 100, 16, Duration::from_secs(3600), 64, 100, ValKind::Always, seed + round)));
+        let _ = tx.send(json!({"ev":"Op","completed":true,"begin":true,"what":"wait() racing close()"}));
+        let stop = Arc::new(AtomicBool::new(false));
+        let finished = Arc::new(AtomicUsize::new(0));
+        let n = 3usize;
+        let hs: Vec<_> = (0..n)
+            .map(|t| {
+                let (api, stop, finished) = (api.clone(), stop.clone(), finished.clone());
+                std::thread::spawn(move || {
+                    let mut v = 1 + t as u64 * 10_000;
+                    while !stop.load(Ordering::SeqCst) {
+                        v += 1;
+                        api.insert(2 + (v % 5), v, 1, 0);
+                        api.wait();
+                    }
+                    finished.fetch_add(1, Ordering::SeqCst);
+                })
+            })
+            .collect();
+        std::thread::sleep(Duration::from_micros(rng.gen_range(100..1500)));
+        api.close();
+        stop.store(true, Ordering::SeqCst);
+        let t0 = Instant::now();
+        while finished.load(Ordering::SeqCst) < n && t0.elapsed() < Duration::from_secs(10) {
+            std::thread::sleep(Duration::from_micros(200));
+        }
+        if finished.load(Ordering::SeqCst) < n {
+            let _ = tx.send(json!({"ev":"Op","completed":false,"what":"a wait() / insert racing close() never returned","round":round}));
+            let _ = tx.send(json!({"ev":"__done"}));
+            return;
+        }
+        for h in hs {
+            let _ = h.join();
+        }
+        let t0 = Instant::now();
+        let mut left;
+        loop {
+            left = if flavor == "sync" {
+                threads_now().saturating_sub(threads_before)
+            } else {
+                TASKS_ALIVE.load(Ordering::SeqCst).saturating_sub(tasks_before)
+            };
+            if left == 0 || t0.elapsed() > Duration::from_secs(5) {
+                break;
+            }
+            std::thread::sleep(Duration::from_millis(1));
+        }
+        if left != 0 || round % 50 == 49 {
+            let _ = tx.send(json!({"ev":"Closed","workers_left":left,"round":round}));
+        }
+        drop(api);
+    }
+    let _ = tx.send(json!({"ev":"__done"}));
+}
+
 /// PARALLEL clients, nothing scheduled: (1) several threads write one resident key through a logging validator -- the verdict and
 /// the replacement are one critical section, so the logged calls must form a chain (C09); (2) several threads look up a
 /// resident and an absent key -- every lookup is exactly one hit or one miss (C17); (3) close() while other threads keep
@@ -908,6 +976,9 @@ pub fn run(o: &Opts) -> i32 {
             }
             "dflt" => {
                 std::thread::spawn(move || dflt_instance(tx, seed * 1000 + j, f, e));
+            }
+            "close" => {
+                std::thread::spawn(move || close_instance(tx, seed * 1000 + j, f, e));
             }
             k => {
                 let (tiny, drop_only) = (k == "tiny", k == "drop");
